@@ -77,7 +77,7 @@ def determinism(sample):
 def main():
     env.reexec_pinned()
     problems = seam_check()
-    sample = {'C01': 20, 'C16': 6, 'C14': 20, 'C17': 20, 'C20': 10, 'C04': 10, 'C13': 4,
+    sample = {'C01': 40, 'C16': 6, 'C14': 20, 'C17': 40, 'C20': 30, 'C04': 30, 'C13': 60,
               'C11': 1, 'C10': 1, 'C15': 1}
     if os.environ.get('VERIF_SELFCHECK_FAST'):
         sample = {k: min(v, 2) for k, v in sample.items()}
